@@ -119,6 +119,17 @@ fn scenarios(ctx: &Ctx) -> Vec<Scenario> {
   add("connect-action-high-bytes", false, vec![Resp::Action(0x0001_0000, cid_bytes(56))], vec![good_a(p3.clone())]);
   add("announce-action-high-bytes", false, vec![good_c(57)], vec![Resp::Action(0x0001_0001, ann_payload(&p3))]);
   add("announce-action-all-ones-high", false, vec![good_c(58)], vec![Resp::Action(0xffff_0001, ann_payload(&p3))]);
+  // error replies cut short: the action field alone, and a few bytes of the transaction id
+  for n in [4usize, 5, 6, 7, 8] {
+    let raw: Vec<u8> = [0u8, 0, 0, 3, 0xaa, 0xbb, 0xcc, 0xdd][..n].to_vec();
+    add(&format!("connect-error-action-cut-{n}"), false, vec![Resp::Raw(raw.clone())], vec![good_a(p3.clone())]);
+    add(&format!("announce-error-action-cut-{n}"), false, vec![good_c(80 + n as u64)], vec![Resp::Raw(raw)]);
+  }
+  // every action value in a short datagram
+  for a in [0u8, 1, 2, 3, 4, 255] {
+    add(&format!("announce-raw-action-{a}-only"), false, vec![good_c(90 + a as u64)], vec![Resp::Raw(vec![0, 0, 0, a])]);
+    add(&format!("connect-raw-action-{a}-only"), false, vec![Resp::Raw(vec![0, 0, 0, a])], vec![good_a(p3.clone())]);
+  }
   // a record is a record, whatever its port
   add("announce-peer-with-port-0", false, vec![good_c(59)], vec![good_a(vec![10, 0, 0, 1, 0, 0, 10, 0, 0, 2, 0x1a, 0xe1, 10, 0, 0, 3, 0xff, 0xff])]);
   // retries are counted per request, not per tracker
